@@ -291,13 +291,13 @@ func (d *driver) drive(free int) hx.Result {
 	sent := 0
 	for guard := 0; sent < free && guard < free*60; guard++ {
 		switch x := d.rng.Intn(100); {
-		case x < 45:
+		case x < 50:
 			if d.send() {
 				sent++
 			}
-		case x < 50 && !w.servers[3].inRoom():
+		case x < 55 && !w.servers[3].inRoom():
 			d.join(3, "carol", 1+d.rng.Intn(2))
-		case x < 93:
+		case x < 92:
 			d.deliver(false)
 		default:
 			d.deliver(true)
